@@ -81,7 +81,7 @@ def run_unit(A, unit, rep, tier):
         if A.classify(cls, name) != "mutator" and name not in DUNDER_OP and name not in ("get", "index", "count", "keys"):
             continue
         b, g = A.graph(cls, name, "root", "none")
-        top = [n for n in live(g) if len(n.stack) == 1]
+        top = [n for n in live(g) if own(n)]
         if A.classify(cls, name) == "mutator":
             rep.context(g.label, True)
             muts = [n for n in top if n.kind == "data_mut"]
